@@ -344,31 +344,30 @@ func (h *hist) roundDivergence(a *hx.Node) {
 		return
 	}
 	w := h.w
-	var full *hx.Node
-	for _, o := range h.nodes {
-		if o != a && !o.WasReset {
-			full = o
-			break
-		}
-	}
-	if full == nil {
-		return
-	}
-	for id, gev := range w.EvByEid {
-		ev, err := a.Store.GetEvent(gev.Hex())
-		if err != nil {
+	// root-cause detection of the known finding C13-roots-insufficient: the reset node assigns another round than a
+	// full-history node to an event both hold. Every full-history node is consulted (the first one may lag behind), and
+	// the detection runs BEFORE any block of the reset node is compared (after(), oracles()), so that a block difference
+	// that follows from it is classified "...-after-round-divergence" whatever the interleaving.
+	for _, full := range h.nodes {
+		if full == a || full.WasReset || full.Core == nil {
 			continue
 		}
-		oe, err := full.Store.GetEvent(gev.Hex())
-		if err != nil {
-			continue
-		}
-		r, ok := ev.VerifRound()
-		or, ok2 := oe.VerifRound()
-		if ok && ok2 && or != r {
-			a.RoundDiverged = true
-			w.Violation("C13", "round-differs-after-reset", fmt.Sprintf("node=%d eid=%d reset-node-round=%d full-node%d-round=%d anchor-base=%d", a.ID, id, r, full.ID, or, a.Base))
-			return
+		for id, gev := range w.EvByEid {
+			ev, err := a.Store.GetEvent(gev.Hex())
+			if err != nil {
+				continue
+			}
+			oe, err := full.Store.GetEvent(gev.Hex())
+			if err != nil {
+				continue
+			}
+			r, ok := ev.VerifRound()
+			or, ok2 := oe.VerifRound()
+			if ok && ok2 && or != r {
+				a.RoundDiverged = true
+				w.Violation("C13", "round-differs-after-reset", fmt.Sprintf("node=%d eid=%d reset-node-round=%d full-node%d-round=%d anchor-base=%d", a.ID, id, r, full.ID, or, a.Base))
+				return
+			}
 		}
 	}
 }
